@@ -429,7 +429,9 @@ def natural_run(tdgl, p, tmp=None, opts=None):
             st["max_retries_seen"] = max(st["max_retries_seen"], st["retries_now"])
         else:
             st["retries_now"] = 0
-            st["delta"] = float(np.abs(res[1] - kw["abs_sq_psi"]).max())
+            # max|d|psi|^2| of this answer against the step's old |psi|^2, which the harness took from the psi handed to
+            # update() BEFORE any call (the callee may overwrite its input arrays, so kw["abs_sq_psi"] is not used)
+            st["delta"] = float(np.abs(np.asarray(res[1]) - st["old_sq"]).max())
         return res
 
     def giv_w(self, current_density, A_induced_vals, velocity):
@@ -472,6 +474,7 @@ def natural_run(tdgl, p, tmp=None, opts=None):
         st["delta"] = None
         st["retries_now"] = 0
         st["A_latest"] = np.array(kw["induced_vector_potential"], copy=True)
+        st["old_sq"] = np.absolute(np.array(kw["psi"], copy=True)) ** 2
         step = int(state["step"])
         if step == 0 and st["n_updates"] > 0:
             ev.append({"ev": "restart"})          # Runner restarted the step index: thermalisation is over
@@ -481,7 +484,10 @@ def natural_run(tdgl, p, tmp=None, opts=None):
             st["tent_at_restart"] = st["tent0"]
         prev = st.get("prev")
         carried = prev is not None and all(np.array_equal(np.asarray(kw[k]), prev[k]) for k in prev)
-        ev.append({"ev": "begin", "step": step, "tent": st["tent0"], "rels": ["carried"] if carried else []})
+        brels = ["carried"] if carried else []
+        if st["tent0"] == dt_init:
+            brels.append("tentinit")        # the tentative step at entry is the dt_init that was asked for
+        ev.append({"ev": "begin", "step": step, "tent": st["tent0"], "rels": brels})
         try:
             res = orig_update(self, state, running_state, dt, **kw)
         except KeyboardInterrupt:
@@ -552,6 +558,7 @@ def natural_run(tdgl, p, tmp=None, opts=None):
             field_units="mT", current_units="uA")
         seed_solution = tdgl.solve(dev, so, applied_vector_potential=sp.get("field", 0.0), terminal_currents=currents)
         st["seed_max_induced"] = float(np.abs(seed_solution.tdgl_data.induced_vector_potential).max())
+        st["seed_last_dt"] = float(seed_solution.dynamics.dt[-1]) if len(seed_solution.dynamics.dt) else None
     P = Patches()
     raised = None
     try:
@@ -604,7 +611,7 @@ def natural_run(tdgl, p, tmp=None, opts=None):
         p = {k: v for k, v in p.items() if k != "_keep_opts"}
         _KEPT["opts"] = opts
     return {"mode": "flags", "cfg": cfg, "ev": ev, "params": p, "raised": raised,
-            "stats": {"seed_max_induced": st.get("seed_max_induced"), "updates": st["n_updates"], "restarts": st.get("restarts", 0),
+            "stats": {"seed_max_induced": st.get("seed_max_induced"), "seed_last_dt": st.get("seed_last_dt"), "updates": st["n_updates"], "restarts": st.get("restarts", 0),
                       "updates_before_restart": st.get("updates_before_restart", 0),
                       "refusals_before_restart": st.get("refusals_before_restart", 0),
                       "tent_at_restart": st.get("tent_at_restart"), "max_retries_in_a_step": st["max_retries_seen"],
